@@ -1,0 +1,50 @@
+//go:build verif
+
+// Package verifhook provides instrumentation points for the external
+// verification harness. With the `verif` build tag, Point and Tune dispatch to
+// handlers installed by the harness; with no handler installed they do nothing.
+package verifhook
+
+import "sync/atomic"
+
+type pointFn func(name string, args ...any)
+type tuneFn func(name string, v any)
+
+var (
+	pointHandler atomic.Pointer[pointFn]
+	tuneHandler  atomic.Pointer[tuneFn]
+)
+
+// SetPoint installs (or, with nil, removes) the Point handler.
+func SetPoint(fn func(name string, args ...any)) {
+	if fn == nil {
+		pointHandler.Store(nil)
+		return
+	}
+	f := pointFn(fn)
+	pointHandler.Store(&f)
+}
+
+// SetTuner installs (or, with nil, removes) the Tune handler.
+func SetTuner(fn func(name string, v any)) {
+	if fn == nil {
+		tuneHandler.Store(nil)
+		return
+	}
+	f := tuneFn(fn)
+	tuneHandler.Store(&f)
+}
+
+// Point marks a named place in the code.
+func Point(name string, args ...any) {
+	if f := pointHandler.Load(); f != nil {
+		(*f)(name, args...)
+	}
+}
+
+// Tune offers a value (usually a pointer) for adjustment.
+func Tune(name string, v any) {
+	if f := tuneHandler.Load(); f != nil {
+		(*f)(name, v)
+	}
+}
